@@ -456,3 +456,45 @@ package dataflow
 //@   ensures store: istype(instr, *ssa.Store) ==> called(makeEdgesAtStoreInCapturedLabel, state, instr.(*ssa.Store))
 //@   ensures branch: istype(instr, *ssa.If) ==> called(makeEdgesAtIf, state, instr.(*ssa.If))
 //@   ensures synthetic_always: called(makeEdgesSyntheticNodes, state, instr)
+
+// ---------------------------------------------------------------------------
+// C08 / C17: the remaining edge constructors attach the edge to the node that the
+// summary holds for the object (addEdge records it in both directions, see
+// updateEdgeInfo): every callee node of a call, the parameter / free-variable node,
+// the global-access node (which is also marked as a write).
+//@ func SummaryGraph.addCallEdge
+//@   property C08 C17
+//@   ghost ck *ssa.Function
+//@   requires g != nil
+//@   ensures every_callee: old(has(g.Callees, call) && g.Callees[call] != nil && has(g.Callees[call], ck)) ==> called(SummaryGraph.addEdge, g, mark, old(g.Callees[call][ck]), cond)
+//@   loop callNode invariant seen: old(has(g.Callees, call) && g.Callees[call] != nil && has(g.Callees[call], ck)) && visited(callNode, ck) ==> called(SummaryGraph.addEdge, g, mark, old(g.Callees[call][ck]), cond)
+
+//@ func SummaryGraph.addParamEdge
+//@   property C08 C17
+//@   requires g != nil
+//@   ensures param_edge: called(SummaryGraph.addEdge, g, mark, old(g.Params[param]), cond)
+
+//@ func SummaryGraph.addFreeVarEdge
+//@   property C08 C17
+//@   requires g != nil
+//@   ensures freevar_edge: called(SummaryGraph.addEdge, g, mark, old(g.FreeVars[freeVar]), cond)
+
+//@ func SummaryGraph.addGlobalEdge
+//@   property C08 C17
+//@   requires g != nil
+//@   ensures global_edge: old(g.AccessGlobalNodes[loc][v]) != nil ==> called(SummaryGraph.addEdge, g, mark, old(g.AccessGlobalNodes[loc][v]), cond) && old(g.AccessGlobalNodes[loc][v]).IsWrite
+
+//@ func ClosureNode.FindBoundVar
+//@   property C08 C17
+//@   requires a != nil
+//@   requires forall k int :: 0 <= k && k < len(a.boundVars) ==> a.boundVars[k] != nil
+//@   ensures found: result != nil ==> result.ssaValue == v && (exists k int :: 0 <= k && k < len(a.boundVars) && a.boundVars[k] == result)
+//@   ensures complete: (exists i int :: 0 <= i && i < len(a.boundVars) && a.boundVars[i].ssaValue == v) ==> result != nil
+//@   modifies nothing
+//@   loop bv invariant none: forall j int :: 0 <= j && j < iter(bv) ==> a.boundVars[j].ssaValue != v
+
+//@ func SummaryGraph.addBoundVarEdge
+//@   property C08 C17
+//@   requires g != nil
+//@   requires forall c *ssa.MakeClosure, k int :: has(g.CreatedClosures, c) && g.CreatedClosures[c] != nil && 0 <= k && k < len(g.CreatedClosures[c].boundVars) ==> g.CreatedClosures[c].boundVars[k] != nil
+//@   ensures bound_edge: old(g.CreatedClosures[closure]) != nil && retof(ClosureNode.FindBoundVar, old(g.CreatedClosures[closure]), v) != nil ==> called(SummaryGraph.addEdge, g, mark, _, cond)
